@@ -20,6 +20,9 @@ EXPLANATION += (
 EXPLANATION += (  # round-3 supplement
     ' U6 covers every parser::meta::Span built in the crate (constant parts are reviewed sites). U7 the default chain of `match` is generated only if some variant lacks an arm of its own.'
 )
+EXPLANATION += (
+    ' U8 every span is converted to a character range with the text of the file the span itself cites (the same span expression selects the file name, is converted and selects the text; spans of one parse error and its hints come from one parser run). U9 who may panic explicitly on the compile path: only ice! and reviewed invariant sites.'
+)
 ASSUMPTIONS = [
     "std's documented panic conditions for str slicing",
     "ariadne expects character offsets (as configured by the crate)",
@@ -497,9 +500,168 @@ def rule_u7(F):
     return r
 
 
+def follow(ld, e, depth=0):
+    """The expression a let-bound local stands for (through plain `let x = e;`)."""
+    e = hir.peel_refs(hir.strip(e))
+    while depth < 12 and isinstance(e, dict) and e.get("k") == "path" and hir.res_local(e) is not None:
+        d = ld.get(hir.res_local(e))
+        if d is None or d[1] is None or d[2] != ():
+            break
+        e = hir.peel_refs(hir.strip(d[1]))
+        depth += 1
+    return e
+
+
+def canon(ld, e, depth=0):
+    e = follow(ld, e)
+    if not isinstance(e, dict) or depth > 12:
+        return "?"
+    k = e.get("k")
+    if k == "path":
+        l = hir.res_local(e)
+        return "%s#%s" % ((e.get("res") or {}).get("name") or "L", l) if l is not None else (hir.res_def(e) or "?")
+    if k == "mcall":
+        return "%s.%s(%s)" % (canon(ld, e["recv"], depth + 1), e["m"], ",".join(canon(ld, a, depth + 1) for a in e["args"]))
+    if k == "call":
+        return "%s(%s)" % (hir.call_def(e) or canon(ld, e["f"], depth + 1), ",".join(canon(ld, a, depth + 1) for a in e["args"]))
+    if k == "field":
+        return "%s.%s" % (canon(ld, e["e"], depth + 1), e.get("n"))
+    if k == "index":
+        return "%s[%s]" % (canon(ld, e.get("e") or e.get("a"), depth + 1), canon(ld, e.get("i") or e.get("b"), depth + 1))
+    if k == "lit":
+        return repr(e.get("v"))
+    if k in ("un", "cast"):
+        return canon(ld, e.get("a") or e.get("e"), depth + 1)
+    return "?" + str(k)
+
+
+def text_span(F, ld, t, depth=0):
+    """The span expression whose file the text expression `t` is the contents of, or None."""
+    t = follow(ld, t)
+    if not isinstance(t, dict) or depth > 8:
+        return None
+    k = t.get("k")
+    if k == "mcall":
+        if t["m"] == "filename" and t["args"]:
+            return t["args"][0]
+        if t["m"] in ("text", "unwrap", "expect", "fetch", "as_str", "as_ref", "deref", "clone", "contents", "chars"):
+            # a helper `self.text(span)` whose body reads self.files[span.file]
+            d = t.get("def") or ""
+            hb = F.body(d) if d and F.has(d) else None
+            if hb is not None and hb.hir and t["args"]:
+                hl = hir.LocalDefs(hb.hir)
+                params = [p.get("local") for p in hb.hir.get("params", []) if p.get("k") == "bind"]
+                c = canon(hl, hb.hir["value"].get("expr") or hb.hir["value"]) if hb.hir["value"].get("k") == "block" else canon(hl, hb.hir["value"])
+                for i, pl in enumerate(params[1:]):
+                    if ("#%s.file]" % pl) in c and "files[" in c and i < len(t["args"]):
+                        return t["args"][i]
+            if t["m"] == "fetch" and t["args"]:
+                return text_span(F, ld, t["args"][0], depth + 1)
+            return text_span(F, ld, t["recv"], depth + 1)
+    if k == "field":
+        inner = follow(ld, t["e"])
+        if inner.get("k") == "index":
+            idx = follow(ld, inner.get("i") or inner.get("b") or {})
+            if idx.get("k") == "field" and idx.get("n") == "file":
+                return idx["e"]
+    return None
+
+
+PARSE_OWNERS = ("parser::error::ParseError", "parser::error::Hint")
+
+
+def of_one_parse(ld, e):
+    """Is the span the `location` of a parse error or of one of its hints?  Those are produced by one parser run over one file."""
+    e = follow(ld, e)
+    return isinstance(e, dict) and e.get("k") == "field" and e.get("n") == "location" and \
+        (hir.strip(e["e"]).get("ty") or "").lstrip("&").replace("mut ", "") in PARSE_OWNERS
+
+
+def rule_u8(F):
+    """A label is (file name, character range).  The byte span is converted to characters with a text: that text must be the
+    contents of the very file the span lies in - the same span expression selects the file name, is converted, and selects the
+    text.  (A type error can carry labels in other files than the error itself.)"""
+    r = RuleResult("C06.U8", "every span is converted to a character range with the text of the file that the span itself cites", floor=5)
+    bodies = [F.body(p) for p in F.paths() if p.startswith("pipeline::RotoReport::write") or "RotoReport>::write" in p]
+    bodies = [b for b in bodies if b is not None and b.def_kind != "Closure"]
+    if not bodies:
+        r.missing("pipeline::RotoReport::write")
+        return r
+    for b in bodies:
+        ld = hir.LocalDefs(b.hir)
+        for c in hir.nodes(b.hir["value"], "call"):
+            d = hir.call_def(c) or ""
+            if not (d.startswith("ariadne::") and (("Label" in d and d.endswith("::new")) or ("Report" in d and d.endswith("::build")))):
+                continue
+            tup = None
+            for a in c["args"]:
+                a = hir.peel_refs(a)
+                if a.get("k") == "tup" and len(a["elems"]) == 2:
+                    tup = a
+            if tup is None:
+                continue
+            what = "Label::new" if "Label" in d else "Report::build"
+            fe = follow(ld, tup["elems"][0])
+            rng = follow(ld, tup["elems"][1])
+            s0 = canon(ld, fe["args"][0]) if fe.get("k") == "mcall" and fe["m"] == "filename" and fe["args"] else None
+            s1 = canon(ld, rng["recv"]) if rng.get("k") == "mcall" and rng["m"] == "character_range" else None
+            n2 = text_span(F, ld, rng["args"][0]) if s1 is not None and rng["args"] else None
+            s2 = canon(ld, n2) if n2 is not None else None
+            same_parse = s1 is not None and n2 is not None and s0 == s1 and s1 != s2 and of_one_parse(ld, rng["recv"]) and of_one_parse(ld, n2)
+            r.inst("%s #%d" % (what, len(r.instances)), {"call": what, "line": c.get("line"), "file_of": s0, "converted": s1, "text_of": s2, "spans_of_one_parse_error": same_parse})
+            if s1 is None:
+                continue  # rule U5 reports ranges that are not a character_range
+            if s0 is None or s2 is None:
+                r.missing("file name / text expression of %s at line %s in a recognised form (file_of=%s text_of=%s)" % (what, c.get("line"), s0, s2))
+            elif not (s0 == s1 == s2) and not same_parse:
+                r.bad(b.path, "%s converts %s with the text of %s" % (what, "its span" if s0 == s1 else "a span", "another span's file"), relfile(b.file), c.get("line"),
+                      "the label cites the file of `%s`, converts `%s` and uses the text of the file of `%s`: when they lie in different files (a type error whose secondary label points "
+                      "into another module) the byte offsets are applied to the wrong text - rendering panics on an out-of-range or mid-character index, or cites a wrong position" % (s0, s1, s2))
+    return r
+
+
+REVIEWED_PANICS = {
+    # function suffix -> why no input reaches the explicit panic
+    "<lir::value::IrValue as std::cmp::PartialEq>::eq": "the evaluator compares operands of one typed instruction; both sides have the instruction's type (C20.V6 decides the rows)",
+    "codegen::codegen": "declare_function of a trampoline named by the unique id of the runtime function cannot clash",
+    "typechecker::scope::ScopeGraph::module_name": "parent_module always holds the index of a scope created as ScopeType::Module",
+    "typechecker::scope::ScopeGraph::module_name::{closure#0}": "parent_module always holds the index of a scope created as ScopeType::Module",
+}
+NOT_EXPLICIT = {"ice", "todo", "unimplemented", "unreachable", "assert", "assert_eq", "assert_ne", "debug_assert", "debug_assert_eq", "debug_assert_ne"}
+
+
+def rule_u9(F):
+    """Who may panic explicitly on the compile path: `ice!` marks a violated internal invariant (a compiler bug by definition);
+    a plain `panic!` is either a reviewed invariant site or an admission that accepted input cannot be compiled."""
+    r = RuleResult("C06.U9", "no explicit panic!() other than ice! and reviewed invariant sites is reachable from the compile entry points", floor=3)
+    cg = CallGraph(F)
+    names = {"typecheck", "lower_to_mir", "lower_to_lir", "codegen", "write", "compile", "parse"}
+    roots = [p for p in F.paths() if "{closure" not in p and hir.last(p) in names
+             and (p.startswith("pipeline::") or p.startswith("file_tree::FileTree::") or p.startswith("module::Parsed"))]
+    if len(roots) < 4:
+        r.missing("compile entry points (found %s)" % roots)
+    seen, parent = cg.reachable(roots)
+    for p in sorted(seen):
+        b = F.body(p)
+        if b is None or not b.hir or "::tests::" in p:
+            continue
+        lines = set()
+        for n in hir.walk(b.hir.get("value") or {}):
+            m = n.get("mac") or []
+            if "panic" in m and not (set(m) & NOT_EXPLICIT):
+                lines.add(n.get("line", b.line))
+        for k, ln in enumerate(sorted(lines)):
+            r.inst("%s panic #%d" % (p, k), {"fn": p, "line": ln, "reviewed": REVIEWED_PANICS.get(p)})
+            if p not in REVIEWED_PANICS:
+                r.bad(p, "explicit panic #%d" % k, relfile(b.file), ln,
+                      "an explicit panic!() that is not an ice! is reachable on the compile path (%s): input the earlier passes accept makes compilation panic instead of producing a report"
+                      % " -> ".join(hir.last(x) for x in cg.chain(parent, p)))
+    return r
+
+
 def rules(ctx):
     F = ctx["F"]
-    return [rule_u1(F), rule_u2(F), rule_u3(F), rule_u3b(F), rule_u4(F), rule_u5(F), rule_u6(F), rule_u7(F)]
+    return [rule_u1(F), rule_u2(F), rule_u3(F), rule_u3b(F), rule_u4(F), rule_u5(F), rule_u6(F), rule_u7(F), rule_u8(F), rule_u9(F)]
 
 
 def canary(C):
